@@ -215,3 +215,21 @@ Proof.
   cbv zeta. split; [reflexivity|]. split; [|split; [reflexivity|split; [vm_compute; reflexivity|reflexivity]]].
   eexists. eapply v_child; [apply (v_top _ _ _ 0); reflexivity|reflexivity].
 Qed.
+
+(* Known finding C12:depth-multiline-field-text-with-children on the model: in
+   <div><p>a\nb ${1} c</p> with a child <x> of p (push_snippet path), the continuation line "b " of
+   p's own text follows a line break with 1 indent unit -- the level of <p> itself -- although two
+   elements (div, p) are open there; value_lines_indent gives level + 1 = 2 units for the same text
+   when p has no children. *)
+Example snippet_text_not_inner_formatted :
+  let x := ANode (Some [120]%N) None None None [] false in
+  let p := ANode (Some [112]%N) (Some [VStr [97;10;98;32]%N; VField 1 []; VStr [32;99]%N]) None None [x] false in
+  let d := ANode (Some [100;105;118]%N) None None None [p] false in
+  exists pre post,
+    fchunks (html_format ex_c1 [d]) =
+    pre ++ [CT false [62]%N; CT false [97]%N; nl_chunk (oc_fmt ex_c1); indent_chunk (oc_fmt ex_c1) 1; CT false [98;32]%N] ++ post.
+Proof.
+  cbv zeta.
+  match goal with |- exists pre post, ?X = _ => exists (firstn 5 X), (skipn 10 X) end.
+  vm_compute. reflexivity.
+Qed.
